@@ -745,7 +745,10 @@ class C02(Check):
             "N: unit name of every measure.  Non-trivial: A/B/E/N non-identity factor; C an item with a non-'1' "
             "dimension in a non-METRIC system or a defaulted dimensioned item; D a keyword with a non-'1' dimension; "
             "M always (>= 8 distinct dimensions, FIELD and LAB renderings); distinct by (sub-check, system, "
-            "keyword/strings, explicit/default pattern, values).")
+            "keyword/strings, explicit/default pattern, values).  M extended during the build phase: one Parser object for "
+            "the four unit-system decks, keyword operations with dimensioned scalars (EQUALS / ADD / MINVALUE / MAXVALUE on "
+            "PERMX / PERMZ / PORV), WELSPECS on an existing well, VFPPROD (FLO OIL/LIQ/GAS, WFR WOR/WCT/WGR, GFR GOR/GLR/OGR, "
+            "ALQ GRAT/IGLR/TGLR/blank/default) and VFPINJ with every axis, the datum depth and the BHP values.")
     ASSUMPTIONS = [
         "which unit a quantity uses in each system is the ECLIPSE convention (vlib/refunits.py); the SI value of "
         "each unit is typed from its physical definition; Btu is the thermochemical Btu (1054.3503 J)",
